@@ -53,7 +53,7 @@ func (k *Keys) GetCursorPos() (x, y int) {
 		// If there is something but not cursor answer, its user input.
 		if len(match) == 0 && len(cursor) > 0 {
 			k.mutex.RLock()
-			k.buf = append(k.buf, cursor...)
+			k.buf = append(k.buf, k.convertMeta(cursor)...)
 			k.mustWait = false
 			k.mutex.RUnlock()
 
@@ -68,7 +68,7 @@ func (k *Keys) GetCursorPos() (x, y int) {
 		// Anything read along with the answer is user input.
 		if remain := rxRcvCursorPos.ReplaceAll(cursor, nil); len(remain) > 0 && !k.waiting && !k.reading {
 			k.mutex.RLock()
-			k.buf = append(k.buf, remain...)
+			k.buf = append(k.buf, k.convertMeta(remain)...)
 			k.mustWait = false
 			k.mutex.RUnlock()
 		}
